@@ -20,7 +20,7 @@ SPEC = os.path.join(ROOT, "spec")
 
 TIERS = {
     "quick": {
-        "edges": [("sock4", 500), ("sockall3", 300), ("pipe3", 250), ("listener3", None), ("unconn3", 120),
+        "edges": [("sock4", 500), ("sockall3", 300), ("pipe3", 250), ("listener3", None), ("unconn3", 220),
                   ("invalid2", None), ("mixed2", 250), ("two2", 250)],
         "hist": [("hist8", 8, 300, 150)],
         "tlc_timeout": 600, "t2_fraction": 0.25,
@@ -170,7 +170,8 @@ def gen_edge_cover(name, limit, seed, timeout):
         rnd = random.Random(seed * 1000003 + len(paths))
         # keep every path that contains a blocking expectation or an invalid descriptor first, sample the rest
         rnd.shuffle(paths)
-        paths.sort(key=lambda p: -sum(1 for a in p if a["cls"] == "block" or a["mode"] in ("invalid", "nonblocking")))
+        paths.sort(key=lambda p: -sum((3 if a["op"] == "connect" and a["mode"] != "invalid" else 1) for a in p
+                                      if a["cls"] == "block" or a["mode"] in ("invalid", "nonblocking") or a["op"] == "connect"))
         head = paths[: limit // 2]
         rest = paths[limit // 2:]
         rnd.shuffle(rest)
